@@ -240,6 +240,13 @@ def tth_worker(a):
             if not (0 < want < 0.9):
                 continue
             t1 = mod.tth(cell, h, lam)
+            hf = np.array(h, dtype=float)
+            hf = np.where(hf != 0, hf * (1 - 1.1e-16), hf)          # one ulp below the integer, where a cast to int truncates
+            t1f = mod.tth(cell, hf, lam)
+            if abs(t1f - t1) > 1e-12:
+                out.append("tth for hkl %s given as floats one ulp below the integers (%r) = %.12g, for the integers %.12g (xfab.%s metric %s)" %
+                           (h, hf.tolist(), t1f, t1, modname, rec["G"]))
+                break
             t2 = mod.tth2(U.dot(B).dot(np.array(h, dtype=float)), lam)
             s1, s2 = math.sin(t1 / 2) ** 2, math.sin(t2 / 2) ** 2
             if abs(s1 - want) > 1e-9 * want or abs(s2 - want) > 1e-9 * want or not (0 <= t1 <= math.pi):
